@@ -140,11 +140,14 @@ def run(prop, cfg, tier, seed):
         if pm.returncode != 0:
             raise RuntimeError("pvmid -run failed: " + pm.stderr.decode()[-2000:])
         mimpl = pm.stdout.decode().splitlines()
+        # the same grammars through the Lean model of the analysis: its first graph is the one the leader marks of the
+        # builder are held against (the builder's own graph too: either may show a cycle without a leader)
+        mmodel = [mid_check.split_model(x)[0] for x in core.run_model_lines("unicode 0", mcases)]
         accepted_lr = 0
-        for cl, il in zip(mcases, mimpl):
+        for cl, il, ml in zip(mcases, mimpl, mmodel):
             if il.split(" ", 3)[2:3] == ["ok1"]:
                 accepted_lr += 1
-            cyc = mid_check.uncovered_cycle(il)
+            cyc = mid_check.uncovered_cycle(il) or mid_check.uncovered_cycle(il, graph_from=ml)
             if cyc:
                 tool_fail.append({"tool": "pvmid", "kind": "cycle-without-leader", "mid_case": cl, "impl": il,
                                   "detail": "builder.PrepareGrammar accepts this grammar with -support-left-recursion although the cycle %s of its first graph passes through no leader rule: the generated parser re-enters these rules at the same offset without bound (C08_cycle_without_leader_has_no_ranking; with every cycle covered: C08_left_recursive_parse_terminates)" % " -> ".join(bytes.fromhex(x[1:]).decode("utf8", "replace") for x in cyc),
